@@ -464,23 +464,6 @@ func explore(P *Prog, fn *ssa.Function, init uint64, evs []Ev, record func(ssa.I
 		work = work[:len(work)-1]
 		b := fn.Blocks[cur.blk]
 		st := cur.st
-		for _, ins := range b.Instrs {
-			if record(ins) {
-				k := atKey{ins, st, cur.phi}
-				if !seenAt[k] {
-					seenAt[k] = true
-					ex.at[ins] = append(ex.at[ins], st)
-					ex.atSel[ins] = append(ex.atSel[ins], cur.phi)
-				}
-			}
-			for i, e := range evs {
-				o := getSt(st, i)
-				n := e.Instr(o, ins)
-				if n != o {
-					st = setSt(st, i, n)
-				}
-			}
-		}
 		sel := cur.phi
 		pathResolve = func(v ssa.Value) ssa.Value {
 			for i := 0; i < 8; i++ {
@@ -503,6 +486,23 @@ func explore(P *Prog, fn *ssa.Function, init uint64, evs []Ev, record func(ssa.I
 				v = nv
 			}
 			return v
+		}
+		for _, ins := range b.Instrs {
+			if record(ins) {
+				k := atKey{ins, st, cur.phi}
+				if !seenAt[k] {
+					seenAt[k] = true
+					ex.at[ins] = append(ex.at[ins], st)
+					ex.atSel[ins] = append(ex.atSel[ins], cur.phi)
+				}
+			}
+			for i, e := range evs {
+				o := getSt(st, i)
+				n := e.Instr(o, ins)
+				if n != o {
+					st = setSt(st, i, n)
+				}
+			}
 		}
 		var iff *ssa.If
 		feasible := [2]bool{true, true}
